@@ -1,7 +1,7 @@
 """C13 — Quadtree enumeration and tile counts are consistent and match what is visited."""
 PROPERTY = "C13"
 LEVEL = "other"
-CONTRACT_MODULES = ["contracts.specfuns", "contracts.lemmas_desc", "contracts.pyramid", "contracts.parallel", "contracts.walk", "contracts.reducer"]
+CONTRACT_MODULES = ["contracts.specfuns", "contracts.lemmas_desc", "contracts.pyramid", "contracts.parallel", "contracts.walk", "contracts.reducer", "contracts.lemmas_embed", "contracts.generator"]
 FUNCTIONS = [
     "toasty.pyramid.pos_parent",
     "toasty.pyramid.pos_children",
@@ -13,9 +13,13 @@ FUNCTIONS = [
     "toasty.pyramid.Pyramid.count_leaf_tiles",
     "toasty.pyramid.Pyramid.count_live_tiles",
     "toasty.pyramid.Pyramid.count_operations",
+    "toasty.pyramid.Pyramid._generator",
+    "toasty.pyramid._make_position_filter",
+    "toasty.pyramid.Pyramid.subpyramid",
 ]
 LEMMAS = ["desc_child_step", "desc_child_pair", "desc_siblings_disjoint", "desc_levels", "desc_transitive",
-          "desc_root", "pow2_add", "ops_plus_leaves_equals_live"]
+          "desc_root", "pow2_add", "ops_plus_leaves_equals_live",
+          "embed_preserves_desc", "embed_below_apex", "embed_valid", "anc_above_apex", "anc_valid", "embed_injective"]
 SLOW = ("_postfix_pos/yields_seq",)
 TRUSTED_BASE = [
     "pyvc VC generator: python subset semantics as stated in DESIGN.md 2.2 (ints unbounded, floor // and %)",
